@@ -198,3 +198,37 @@ Arguments set_commit_round : simpl never.
 Arguments add_sched : simpl never.
 Arguments set_halted : simpl never.
 Global Opaque set_rs set_triggered set_prop set_locked set_valid set_votes set_last_commit set_commit_round add_sched set_halted.
+
+(* unlock_known (the unlock rule of defaultDoPrevote) touches the lock fields only *)
+Lemma cs_height_unlock_known (r : Z) (s : cstate) : cs_height (unlock_known r s) = cs_height s.
+Proof. unfold unlock_known. destruct (cs_lblock s); [destruct (later_polka_other _ _ _ _ _)|]; autorewrite with cs; reflexivity. Qed.
+Lemma cs_round_unlock_known (r : Z) (s : cstate) : cs_round (unlock_known r s) = cs_round s.
+Proof. unfold unlock_known. destruct (cs_lblock s); [destruct (later_polka_other _ _ _ _ _)|]; autorewrite with cs; reflexivity. Qed.
+Lemma cs_step_unlock_known (r : Z) (s : cstate) : cs_step (unlock_known r s) = cs_step s.
+Proof. unfold unlock_known. destruct (cs_lblock s); [destruct (later_polka_other _ _ _ _ _)|]; autorewrite with cs; reflexivity. Qed.
+Lemma cs_triggered_unlock_known (r : Z) (s : cstate) : cs_triggered (unlock_known r s) = cs_triggered s.
+Proof. unfold unlock_known. destruct (cs_lblock s); [destruct (later_polka_other _ _ _ _ _)|]; autorewrite with cs; reflexivity. Qed.
+Lemma cs_proposal_unlock_known (r : Z) (s : cstate) : cs_proposal (unlock_known r s) = cs_proposal s.
+Proof. unfold unlock_known. destruct (cs_lblock s); [destruct (later_polka_other _ _ _ _ _)|]; autorewrite with cs; reflexivity. Qed.
+Lemma cs_pblock_unlock_known (r : Z) (s : cstate) : cs_pblock (unlock_known r s) = cs_pblock s.
+Proof. unfold unlock_known. destruct (cs_lblock s); [destruct (later_polka_other _ _ _ _ _)|]; autorewrite with cs; reflexivity. Qed.
+Lemma cs_pparts_unlock_known (r : Z) (s : cstate) : cs_pparts (unlock_known r s) = cs_pparts s.
+Proof. unfold unlock_known. destruct (cs_lblock s); [destruct (later_polka_other _ _ _ _ _)|]; autorewrite with cs; reflexivity. Qed.
+Lemma cs_vround_unlock_known (r : Z) (s : cstate) : cs_vround (unlock_known r s) = cs_vround s.
+Proof. unfold unlock_known. destruct (cs_lblock s); [destruct (later_polka_other _ _ _ _ _)|]; autorewrite with cs; reflexivity. Qed.
+Lemma cs_vblock_unlock_known (r : Z) (s : cstate) : cs_vblock (unlock_known r s) = cs_vblock s.
+Proof. unfold unlock_known. destruct (cs_lblock s); [destruct (later_polka_other _ _ _ _ _)|]; autorewrite with cs; reflexivity. Qed.
+Lemma cs_vparts_unlock_known (r : Z) (s : cstate) : cs_vparts (unlock_known r s) = cs_vparts s.
+Proof. unfold unlock_known. destruct (cs_lblock s); [destruct (later_polka_other _ _ _ _ _)|]; autorewrite with cs; reflexivity. Qed.
+Lemma cs_commit_round_unlock_known (r : Z) (s : cstate) : cs_commit_round (unlock_known r s) = cs_commit_round s.
+Proof. unfold unlock_known. destruct (cs_lblock s); [destruct (later_polka_other _ _ _ _ _)|]; autorewrite with cs; reflexivity. Qed.
+Lemma cs_votes_unlock_known (r : Z) (s : cstate) : cs_votes (unlock_known r s) = cs_votes s.
+Proof. unfold unlock_known. destruct (cs_lblock s); [destruct (later_polka_other _ _ _ _ _)|]; autorewrite with cs; reflexivity. Qed.
+Lemma cs_last_commit_unlock_known (r : Z) (s : cstate) : cs_last_commit (unlock_known r s) = cs_last_commit s.
+Proof. unfold unlock_known. destruct (cs_lblock s); [destruct (later_polka_other _ _ _ _ _)|]; autorewrite with cs; reflexivity. Qed.
+Lemma cs_scheduled_unlock_known (r : Z) (s : cstate) : cs_scheduled (unlock_known r s) = cs_scheduled s.
+Proof. unfold unlock_known. destruct (cs_lblock s); [destruct (later_polka_other _ _ _ _ _)|]; autorewrite with cs; reflexivity. Qed.
+Lemma cs_halted_unlock_known (r : Z) (s : cstate) : cs_halted (unlock_known r s) = cs_halted s.
+Proof. unfold unlock_known. destruct (cs_lblock s); [destruct (later_polka_other _ _ _ _ _)|]; autorewrite with cs; reflexivity. Qed.
+#[export] Hint Rewrite cs_height_unlock_known cs_round_unlock_known cs_step_unlock_known cs_triggered_unlock_known cs_proposal_unlock_known cs_pblock_unlock_known cs_pparts_unlock_known cs_vround_unlock_known cs_vblock_unlock_known cs_vparts_unlock_known cs_commit_round_unlock_known cs_votes_unlock_known cs_last_commit_unlock_known cs_scheduled_unlock_known cs_halted_unlock_known : cs.
+Arguments unlock_known : simpl never.
